@@ -20,9 +20,9 @@ P = {
          "Lean kernel; model of Shape.validate and the logical / shape-based components; W3C reference oracle"),
  "C05": ("proof", "§6 C05 / §10", "9 theorems over an opaque engine: results = images of the distinct violations of the solutions (membership exact, no duplicates, at most one failure marker), value/path/focus from ?value/?path/?this, messages a function of the result's own bindings, component matching iff all mandatory parameters present, forbidden templates are validation failures (template family: _partial); correspondence with solutions obtained from rdflib directly",
          "theorem over an opaque engine + differential correspondence", "rdflib's SPARQL engine is a parameter of the model, not verified; forbidden-syntax theorem covers the template family, not arbitrary query text"),
- "C06": ("proof", "§6 C06", "verdict_formula for every option vector (waivers, abort, focus filter): false iff some reported result has an unwaived severity; report well-formedness checked on the real return triple",
-         "theorem + oracle on the real return value",
-         "Lean kernel; model of Shape.validate / Validator.run; the agreement of literal / text / count and result well-formedness are checked on generated runs, not proved"),
+ "C06": ("proof", "§6 C06", "verdict_formula for every option vector (waivers, abort, focus filter): false iff some reported result has an unwaived severity; over the model of the report assembly (create_validation_report, make_v_result, clone_blank_node / clone_list): three_renderings_agree, result_links, single_report_node, result_node_wellformed (every result node, nested ones included: exactly one focus / severity / component / shape, at most one value / path), blank-node descriptions copied; the model's report graph compared with the real one up to blank-node labels, and the same facts checked on the real return triple",
+         "theorem + differential correspondence (report graph isomorphism) + oracle on the real return value",
+         "Lean kernel; model of Shape.validate / Validator.run / report assembly; freshness of rdflib BNode() is a constructor of the model; wording of result blocks (stringify_node) and auto-generated messages are parameters; that reported terms are terms of the validated graphs is checked on generated runs, not proved"),
  "C07": ("proof", "§6 C07 / §10", "printer theorems: for every supported path within the regenerated depth cap the printed text is the rendering of an SPath that is well-formed at every SPARQL grammar level and has the SHACL path's SPARQL 1.1 meaning (stacked modifiers, inverse of sequences included); sparql_mode plan is read-only; metamorphic relation sparql_mode vs in-memory on the real code",
          "theorem (printer = rendering of a grammatical SPath with equal semantics) + metamorphic oracle", "rdflib's SPARQL engine trusted to implement SPARQL; the *_sparql evaluator twins are compared on the code, not proved; unambiguity of the SPARQL path grammar is assumed"),
  "C08": ("proof", "§6 C08", "caller_unchanged: invariant over the pipeline op sequence for every heap, config and failure point; exhaustive config enumeration with fault injection on the real code",
@@ -44,7 +44,7 @@ P = {
          "theorem over regenerated tables + exhaustive kind enumeration", "the API clause is proved at component level only (paths, targets, advanced mode: enumeration on the code)"),
  "C17": ("proof", "§6 C17", "advanced targets / functions / expressions glue with opaque engine", "theorem over an opaque engine + differential correspondence", ""),
  "C18": ("other", "§6 C18", "proof of pySHACL's glue (same report object serialised; exit status); round-trip of rdflib's serialisers is a hypothesis validated by sampling", "theorem for the glue + sampled round-trip", "rdflib parsers/serialisers not verified"),
- "C19": ("proof", "§6 C19", "total model = the code's own termination argument; at_limit_loud; back-out silent on fresh shapes; depth x limit sweep under a wall-clock limit on the real code",
+ "C19": ("proof", "§6 C19", "total model = the code's own termination argument; limit_only_truncates_loudly (for limits L <= L' the run under L is the run under L' or the 'too deep' failure: simulation through every component, loop and nested evaluation), report_exact_below_limit, at_limit_loud; back-out silent on fresh shapes; depth x limit sweep under a wall-clock limit on the real code",
          "theorem + differential correspondence + wall-clock oracle", "C stack / wall clock cannot be exhibited by the model; measured"),
  "C20": ("proof", "§6 C20", "forms_agree over the pure classify/sniff functions; metamorphic oracle over all hand-over forms on the real code", "theorem + metamorphic oracle", "rdflib parsers are a parameter"),
 }
